@@ -125,6 +125,8 @@ def render_fragment(unit, docs, types):
             params.append('%s %s' % (ct, nm))
         else:
             params.append('%s *%s' % (ct, nm))
+    for nm, ct in p.exposed.items():
+        params.append('%s *%s' % (ct, nm))
     txt = locals_txt + txt
     sig = 'void %s(%s)' % (unit['name'], ', '.join(params) if params else 'void')
     p.fire('fragment:selected')
